@@ -622,9 +622,9 @@ def _parse_chunked(S, o, cfg):
         size_c = lc if semi < 0 else lc[:semi]
         ext_c = [] if semi < 0 else lc[semi:]
         if not size_c or not bool(_b(all_of(size_c, c_hex))):
-            return _chunk_limit_or(cfg, p + 2 - start, len(body_cells), ("err", (400,)), err=True)
+            return _chunk_limit_or(cfg, p + 2 - start, len(body_cells), ("err", (400,)), err=True, avail=n - start)
         if ext_c and not valid_chunk_ext(ext_c):
-            return _chunk_limit_or(cfg, p + 2 - start, len(body_cells), ("err", (400,)), err=True)
+            return _chunk_limit_or(cfg, p + 2 - start, len(body_cells), ("err", (400,)), err=True, avail=n - start)
         size = hex_value(size_c)
         o = p + 2
         if isinstance(size, SymInt):
@@ -644,7 +644,7 @@ def _parse_chunked(S, o, cfg):
                 return _chunk_limit_or(cfg, n - start, len(body_cells), ("incomplete",))
             t = cells_of(S[o:o + 2])
             if not bool(s_and(_b(c_eq(t[0], 13)), _b(c_eq(t[1], 10)))):
-                return _chunk_limit_or(cfg, o + 2 - start, len(body_cells), ("err", (400,)), err=True)
+                return _chunk_limit_or(cfg, o + 2 - start, len(body_cells), ("err", (400,)), err=True, avail=n - start)
             o += 2
             continue
         # last-chunk: trailer section
@@ -671,15 +671,18 @@ def _parse_chunked(S, o, cfg):
             if bad:
                 # a server may refuse as soon as it sees the line or once the trailer section is complete
                 if find(S, b"\r\n\r\n", o - 2) >= 0:
-                    return ("err", (400,))
+                    return _chunk_limit_or(cfg, o - start, len(body_cells), ("err", (400,)), err=True, avail=n - start)
                 return ("any",)
 
 
-def _chunk_limit_or(cfg, framing, data, otherwise, err=False):
+def _chunk_limit_or(cfg, framing, data, otherwise, err=False, avail=None):
     a = framing >= cfg.max_body
     b = data >= cfg.max_body
     if a and b:
         return ("err", (413,))
     if a or b:
         return ("any",)
+    if err and avail is not None and avail >= cfg.max_body:
+        # malformed, and the bytes received for the body reach the limit: either refusal is right
+        return ("err", (400, 413))
     return otherwise
